@@ -470,6 +470,10 @@ impl Text {
         for t in &mut m.terms {
             t.ty = random_type(rng, 0);
         }
+        if rng.chance(0.4) {
+            confusable_terminal_names(&mut m, rng);
+            w.count("grammars-with-confusable-terminal-names");
+        }
         // render with layout inside the types
         let mut plain = m.clone();
         let placeholders: Vec<String> = (0..m.terms.len()).map(|i| format!("KvPlaceholder{i}")).collect();
